@@ -46,6 +46,9 @@ func collect() {
 	methodSource("p/mbapp", "", "ParseMessage", "src_mb_parse")
 	methodSource("p/mbapp", "bitMap", "get", "src_mb_bitget")
 	methodSource("p/mbapp", "bitMap", "set", "src_mb_bitset")
+	methodSource("p/mbapp", "bitMap", "allSet", "src_mb_allset")
+	methodSource("p/mbapp", "collector", "isComplete", "src_mb_iscomplete")
+	methodSource("p/mbapp", "Swarm", "getCounter", "src_mb_getcounter")
 
 	// C05 / C07: the channel methods the Channel model was written against
 	methodSource("p/p2pke", "Channel", "Deliver", "src_ch_deliver")
@@ -91,6 +94,11 @@ func collect() {
 	methodSource("p/kademlia", "", "LeadingZeros", "src_kad_leadingzeros")
 	methodSource(".", "PeerID", "UnmarshalText", "src_peerid_unmarshal")
 	methodSource(".", "PeerID", "MarshalText", "src_peerid_marshal")
+	methodSource("s/quicswarm", "", "ParseAddr", "src_quic_parseaddr")
+	methodSource("s/p2pkeswarm", "", "ParseAddr", "src_ke_parseaddr")
+	methodSource("s/sshswarm", "", "ParseAddr", "src_ssh_parseaddr")
+	methodSource("s/udpswarm", "", "ParseAddr", "src_udp_parseaddr")
+	methodSource("s/multiswarm", "AddrSchema", "ParseAddr", "src_multi_parseaddr")
 
 	// C02 / C03 / C06: P2PKE constants and the readiness guards as truth tables
 	constInt("p/p2pke", "MaxNonce", "ke_max_nonce")
